@@ -90,8 +90,7 @@ func Point(w ...string) {
 	x := s.self()
 	s.mu.Lock()
 	s.parked[x] = what
-	s.seq++
-	x.seq = s.seq
+	x.seq = s.seq // the scheduler step during which this goroutine parked
 	s.mu.Unlock()
 	<-x.wake
 }
@@ -112,8 +111,7 @@ func Choose(n int, w ...string) int {
 	s.mu.Lock()
 	x.alts = n
 	s.parked[x] = what
-	s.seq++
-	x.seq = s.seq
+	x.seq = s.seq // the scheduler step during which this goroutine parked
 	s.mu.Unlock()
 	<-x.wake
 	return x.choice
@@ -180,7 +178,14 @@ func (s *Sched) Run(threads ...func()) (deadlock bool) {
 		// just woke), the default continuation is then that worker - what the Go runtime does
 		// with a freshly readied goroutine - and a goroutine that was preempted earlier stays
 		// parked until nothing else can run or a free alternative picks it.
-		sort.Slice(gs, func(i, j int) bool { return gs[i].seq > gs[j].seq })
+		// Goroutines that parked during the same scheduler step are ordered by id: the order
+		// in which they reached their points is the Go runtime's, not ours.
+		sort.Slice(gs, func(i, j int) bool {
+			if gs[i].seq != gs[j].seq {
+				return gs[i].seq > gs[j].seq
+			}
+			return gs[i].id < gs[j].id
+		})
 		if len(gs) == 0 {
 			lmu.Lock()
 			l := left
@@ -233,6 +238,9 @@ func (s *Sched) Run(threads ...func()) (deadlock bool) {
 			}
 		}
 		s.Choices = append(s.Choices, c)
+		s.mu.Lock()
+		s.seq = len(s.Choices)
+		s.mu.Unlock()
 		s.Enabled = append(s.Enabled, len(en))
 		s.RunFirst = append(s.RunFirst, runFirst)
 		x := en[c].g
